@@ -259,11 +259,22 @@ def zero_division(ctx):
             guard = enclosing(r, (ast.If,))
             if qual == "codegen.codegen_div":
                 t = guard.test if guard is not None else None
-                if t is not None and isinstance(t, ast.UnaryOp) and isinstance(t.op, ast.Not) and un(t.operand) == "denom" and r in guard.body:
+                # the denominator is the second component of what codegen_inv returns
+                denoms = set()
+                for a in walk_shallow(fn):
+                    if isinstance(a, ast.Assign) and isinstance(a.value, ast.Call) and call_name(a.value) == "codegen_inv":
+                        tg = a.targets[0]
+                        if isinstance(tg, ast.Tuple) and len(tg.elts) == 2 and isinstance(tg.elts[1], ast.Name):
+                            denoms.add(tg.elts[1].id)
+                        elif isinstance(tg, ast.Name):
+                            denoms |= {f"{tg.id}[1]", f"{tg.id}.denom"}
+                if t is not None and isinstance(t, ast.UnaryOp) and isinstance(t.op, ast.Not) and un(t.operand) in denoms and r in guard.body:
                     ctx.ok(c, r, module=mname, guard=un(t))
-                elif t is not None and isinstance(t, ast.Compare) and un(t.left) == "denom" and isinstance(t.ops[0], ast.Eq) \
+                elif t is not None and isinstance(t, ast.Compare) and un(t.left) in denoms and isinstance(t.ops[0], ast.Eq) \
                         and un(t.comparators[0]) == "0" and r in guard.body:
                     ctx.ok(c, r, module=mname, guard=un(t))
+                elif not denoms:
+                    raise Unknown(c, "cannot identify the denominator returned by codegen_inv", r)
                 else:
                     ctx.violation(c, f"ZeroDivisionError is raised under {un(t) if t is not None else 'no guard'!r}, not under "
                                      f"'the denominator is identically zero': invertible operands are rejected (or "
